@@ -956,6 +956,47 @@ def eval_cases(chk, cases, metas):
         chk.corr_fail("Corr.AliasCorr.alias_case_ok", metas[i])
 
 
+
+def cli_option_stream(chk, rng, stats):
+    """Through the command line, with options that only concern what is printed (-v, -q) and with a dry run before the real
+    one: `-a N=P` + a host template using %N() must give the same names as the host with P written in place and no such
+    option.  (In-process compilation cannot see what an option of the command line does to the rendering.)"""
+    import os
+    pairs = [("%Count(start=1,width=3)", "%N()_%Name()", "{P}_%Name()"),
+             ("%Count(step=2)", "%N()%N()_%Name()", "{P}{P}_%Name()"),
+             ("%Upper{%Base()}", "%Lower{%N()}%Ext()", "%Lower{{P}}%Ext()"),
+             ("%Base()-%Count(start=5)", "%N()|%Upper()", "{P}|%Upper()"),
+             ("x%Count()", "%Upper{%N()_%N()}%Ext()", "%Upper{{P}_{P}}%Ext()")]
+    flagsets = [["-v"], ["-v", "-v"], ["-q"], ["-v", "-q"], []]
+    files = ["in/a.txt", "in/b.txt", "in/c.dat", "in/sub/d.txt", "in/sub/e.txt"]
+
+    def run(argv):
+        with Sandbox("verif-c15-cli-") as root:
+            for p in files:
+                os.makedirs(os.path.dirname(os.path.join(root, p)), exist_ok=True)
+                with open(os.path.join(root, p), "w") as fh:
+                    fh.write(p)
+            res = cli_driver.run_cli(argv + [os.path.join(root, "in")], root, root=root, snapshots=False, trace=False)
+            got = {}
+            for dp, _dn, fns in os.walk(root):
+                for fn in fns:
+                    with open(os.path.join(dp, fn)) as fh:
+                        got[fh.read()] = os.path.relpath(os.path.join(dp, fn), root)
+            return res.status, got
+    n = 0
+    for body, host, inplace in pairs:
+        want = run(["-r", "-s", "%Name()", "--", inplace.replace("{P}", body)])
+        for flags in flagsets:
+            got = run(flags + ["-r", "-s", "%Name()", "-a", "N=" + body, "--", host])
+            n += 1
+            chk.count(("alias-cli", body, host, tuple(flags)))
+            if got != want:
+                chk.oracle_fail("alias N=%r in %r with options %r: status/names %r, the pattern written in place gives %r" % (
+                    body, host, flags, (got[0], sorted(got[1].values())[:4]), (want[0], sorted(want[1].values())[:4])),
+                    {"alias": body, "host": host, "options": flags})
+    stats["cli_option_runs"] = n
+
+
 def run(chk):
     rng = chk.rng
     quick = chk.tier == "quick"
@@ -993,6 +1034,8 @@ def run(chk):
     stats["model_wall_s"] = round(time.time() - t0, 1)
     stats["model_cases"] = len(cases)
     chk.notes["c15"] = stats
+    _cs = {}
+    cli_option_stream(chk, chk.rng, _cs)
     chk.coverage["rule"] = (
         "one evaluation = one (alias set, host template, mode) driven through the implementation: a pair of "
         "tempren.cli.main() runs on identical trees (alias vs inlined text, or alias vs str literal in -s/-ft), or one "
